@@ -154,6 +154,15 @@ def builtin(ex, st, callee, args, dty, fr):
                 else:
                     out.append((cnd, opt_none(dty)))
             return out
+        if meth == "map" and len(args) == 2:
+            out = []
+            for cnd, nm in enum_split(ex, st, v, ["None", "Some"]):
+                if nm == "Some":
+                    inner = generic_args(dty)
+                    out.append((cnd, opt_some(dty, ex.fresh_lazy(inner[0] if inner else "?", "mapped"))))
+                else:
+                    out.append((cnd, opt_none(dty)))
+            return out
         if meth == "ok_or" or meth == "ok_or_else":
             return NotImplemented
         return NotImplemented
